@@ -229,9 +229,13 @@ def mk_pass(**kw):
     return PassHarness(**kw)
 
 
+# symbolic x symbolic multiplications / long call chains: each path costs minutes in the solver
+HEAVY = {"calls", "recursion", "incdec", "compound", "nested_loops", "long_arith", "ulong_arith", "mixed_width"}
+
+
 def jobs_for(prop, tier, seed):
     js = []
-    progs = sorted(cprogs.PROGS)
+    progs = sorted(p for p in cprogs.PROGS if tier != "quick" or p not in HEAVY)
     symc = ("ConstantFolder", "RemoveAddZeroPass", "CJumpPass", "LoadAfterStorePass")
     for n, p in enumerate(progs):
         if tier == "quick":
@@ -250,12 +254,13 @@ def jobs_for(prop, tier, seed):
         for lvl in levels:
             js.append(("mk_pass", dict(prop=prop, prog=p, config=f"level:{lvl}", symconst=False)))
         js.append(("mk_pass", dict(prop=prop, prog=p, config="seq:Mem2RegPromotor+ConstantFolder+CJumpPass+CleanPass",
-                                   symconst=True)))
+                                   symconst=(tier != "quick"))))
     # IR-level CFG skeleton family (phis, joins, self loops, double edges): CFG-rewriting passes + pipeline
     for nm in irprogs.names(tier, seed):
         for cfg in ("pass:CleanPass", "level:2", "seq:Mem2RegPromotor+ConstantFolder+CJumpPass+CleanPass") if tier == "quick" \
-                else ["pass:" + x for x in SINGLE] + ["level:2", "level:3"]:
-            js.append(("mk_pass", dict(prop=prop, prog=nm, config=cfg, symconst=cfg.startswith("seq:"))))
+                else ("pass:CleanPass", "pass:Mem2RegPromotor", "pass:CJumpPass", "pass:TailCallOptimization", "level:2", "level:3",
+                      "seq:Mem2RegPromotor+ConstantFolder+CJumpPass+CleanPass"):
+            js.append(("mk_pass", dict(prop=prop, prog=nm, config=cfg, symconst=False)))
     only = os.environ.get("VERIF_ONLY")
     if only:
         js = [j for j in js if only in repr(j)]
